@@ -163,6 +163,11 @@ func (s *OpenAPI3Exporter) GenerateOpenAPI3(app *syslwrapper.App) (*openapi3.T, 
 			operation.AddResponse(parseResponseCode(value.Name), response)
 		}
 
+		// `responses` is required even when the endpoint has no return statement
+		if operation.Responses == nil {
+			operation.Responses = openapi3.NewResponses()
+		}
+
 		spec.AddOperation(path, method, operation)
 	}
 
